@@ -192,8 +192,11 @@ typename LeastSquares<RealType>::Vector LeastSquares<RealType>::estimateUsingSVD
 
   Eigen::JacobiSVD<Matrix> svd(JtJ_, Eigen::ComputeThinU | Eigen::ComputeThinV);
   inverseJtJ_ = svd.singularValues().asDiagonal();
+  // singular values are negligible relative to the largest one, not in absolute terms
+  const RealType threshold =
+    std::numeric_limits<RealType>::epsilon() * svd.singularValues()(0);
   for (int n = 0; n < estimateSize_; n++) {
-    if (inverseJtJ_(n, n) > std::numeric_limits<RealType>::epsilon()) {
+    if (inverseJtJ_(n, n) > threshold) {
       inverseJtJ_(n, n) = 1 / inverseJtJ_(n, n);
     }
   }
